@@ -40,8 +40,9 @@ class GenCase:
 
 
 def run_gen_harness(binary, cases, tag, timeout=3000):
-    os.makedirs(os.path.join(BUILD, "run"), exist_ok=True)
-    path = os.path.join(BUILD, "run", "%s.gcases" % tag)
+    from common import RUNDIR
+    os.makedirs(RUNDIR, exist_ok=True)
+    path = os.path.join(RUNDIR, "%s.gcases" % tag)
     with open(path, "w") as f:
         for c in cases:
             f.write(c.harness_text() + "\n")
